@@ -68,12 +68,22 @@ var analysed = []string{
 	"github.com/dfklegend/cell2/actorex/mailbox",
 	"github.com/dfklegend/cell2/actorex/service",
 	"github.com/dfklegend/cell2/node/client/impls/pomelo",
+	"github.com/dfklegend/cell2/utils/waterfall",
 }
 
 // relative directories of the analysed packages below the repository root
 var analysedDirs = []string{
 	"utils/runservice", "utils/sche", "utils/timer", "utils/event",
-	"actorex/disp", "actorex/mailbox", "actorex/service", "node/client/impls/pomelo",
+	"actorex/disp", "actorex/mailbox", "actorex/service", "node/client/impls/pomelo", "utils/waterfall",
+}
+
+// functions of an analysed package that are left out of the graph: the DIRECT variants of waterfall ("just
+// callback directly", every callback runs on whatever goroutine completes the step) are not what services chain
+// their steps with (that is waterfall.Sche / Builder) and promise nothing about goroutines.  By name, not by
+// file, so that moving code between files changes nothing; anything else added to the package is analysed.
+var notAnalysed = map[string]bool{
+	"waterfall.Simple":      true,
+	"waterfall.ExecAndWait": true,
 }
 
 // higher-order callees that run their function argument synchronously on the caller's goroutine
@@ -1067,7 +1077,19 @@ func (w *walker) stmt(c ctx, s ast.Stmt) {
 		for _, e := range x.Lhs {
 			w.expr(c, e)
 		}
-		for _, e := range x.Rhs {
+		for i, e := range x.Rhs {
+			// `x.f = func(...) {...}`: a closure put into a struct field after construction.  Who calls the field
+			// is not known here (waterfall hands Chain.callbackFunc to the user's tasks, which complete from any
+			// goroutine), so the closure is treated like a goroutine root ("unknown": call edge + root); the kind
+			// names the field and is reviewed in Lean.
+			if fl, ok := unparen(e).(*ast.FuncLit); ok && len(x.Lhs) == len(x.Rhs) {
+				if sel, ok := unparen(x.Lhs[i]).(*ast.SelectorExpr); ok {
+					if sl := w.info.Selections[sel]; sl != nil && sl.Kind() == types.FieldVal {
+						w.useFunc(c, fl, "assigned:field "+typeName(sl.Recv())+"."+sel.Sel.Name, "unknown")
+						continue
+					}
+				}
+			}
 			w.expr(c, e)
 		}
 	case *ast.ReturnStmt:
@@ -1257,6 +1279,9 @@ func main() {
 				if obj == nil {
 					continue
 				}
+				if notAnalysed[funcName(obj)] {
+					continue
+				}
 				n := g.node(funcName(obj))
 				summarise(ld.info, fd, funcName(obj))
 				n.exported = ast.IsExported(fd.Name.Name)
@@ -1283,7 +1308,7 @@ func main() {
 				switch x := d.(type) {
 				case *ast.FuncDecl:
 					obj, _ := ld.info.Defs[x.Name].(*types.Func)
-					if obj == nil || x.Body == nil {
+					if obj == nil || x.Body == nil || notAnalysed[funcName(obj)] {
 						continue
 					}
 					w := &walker{g: g, info: ld.info, fset: fset, pkg: ld.tp, analysed: anSet, top: funcName(obj)}
